@@ -39,7 +39,7 @@ def checker(ctx) -> ptcheck.Checker:
 
 # generator shapes beyond the default stream (notes/C01.md, "Seeded changes"): integer channel ids incl. 0 and renamings
 # 'A' <-> 0, FunctionPTs whose expression is the time variable itself, nested scalar arithmetic in atomic composites
-GEN = {'int_chan_p': 0.25, 'plain_t_p': 0.2, 'nest_wrap_p': 0.15}
+GEN = {'int_chan_p': 0.25, 'plain_t_p': 0.2, 'nest_wrap_p': 0.15, 't_param_p': 0.6}
 
 
 def shared_grid_case(rng: random.Random):
@@ -104,7 +104,8 @@ def run(ctx: core.Ctx):
                 'channel mappings with dropped channels, measurements, identifiers; dyadic numbers, power-of-two segment '
                 'lengths so float arithmetic is exact), all nestings of depth <= 3 over two atoms, and a single-fault '
                 'malformed stream; a quarter of the random cases use the integer channel ids 0, 1, 2 with renamings between integer and '
-                'string names; function templates whose expression is the time variable itself; a family of single '
+                'string names; function templates whose expression is the time variable itself; a scope entry literally called t (a renamed '
+                'parameter / loop index or an extra value) in trees whose only t-sensitive nodes are function templates; a family of single '
                 'multi-channel waveforms built from per-channel pulse arithmetic over such ramps; all channels of a '
                 'program (and of every played waveform) are sampled on ONE time array that must come back unchanged; '
                 'grids = piece boundaries, boundaries +-1/16, 0, regular grids at rates 1 and 4, all in '
